@@ -13,6 +13,14 @@ Pow2(n) == 2 ^ n
 
 Canon(w, x) == IF w = 1 THEN x % 256 ELSE IF w = 2 THEN x % 65536 ELSE x
 
+(* The object's type class is (w, sg): sg = 1 signed, sg = 0 unsigned integer type of w bytes,
+   sg = 2: _Bool (w = 1) - a value converted to _Bool is 0 if it compares equal to 0, else 1
+   (C11 6.3.1.2); sg = 3: a floating type (w = 4 float, w = 8 double) - the generated domain keeps
+   every operand and result an integer of magnitude < 2^20, which both formats hold exactly, so the
+   arithmetic is the integers' (and `/` only ever divides exactly).
+   CanonT is the conversion of a C value to the object's type, canonical form.  *)
+CanonT(w, sg, x) == IF sg = 2 THEN (IF x = 0 THEN 0 ELSE 1) ELSE Canon(w, x)
+
 (* the C value of an object of width w, signed (sg = 1) or unsigned, as a long *)
 AsLong(w, sg, c) ==
   IF sg = 1 /\ w = 1 /\ c >= 128 THEN c - 256
@@ -43,7 +51,7 @@ FetchNew == {"fadd_n", "fsub_n", "fand_n", "for_n", "fxor_n"}
    left operand (anything else is outside the generated domain).            *)
 Arith(opk, w, sg, cur, v) ==
   LET a == AsLong(w, sg, cur) IN
-  Canon(w, CASE opk \in {"add", "fadd", "fadd_n", "preinc", "postinc", "casinc", "lock"} -> a + v
+  CanonT(w, sg, CASE opk \in {"add", "fadd", "fadd_n", "preinc", "postinc", "casinc", "lock"} -> a + v
              [] opk \in {"sub", "fsub", "fsub_n", "predec", "postdec"} -> a - v
              [] opk = "mul" -> a * v
              [] opk = "div" -> TDiv(a, v)
@@ -67,13 +75,14 @@ Sem(opk, w, sg, cur, v, e) ==
             e # 0: the consumer - if it sees obj = e (the producer's new value: the hand-off has
             happened) it takes over xobj and stores v there.                                    *)
          IF e = 0
-         THEN IF cur.m = cur.x THEN [mem |-> [m |-> Canon(w, v), x |-> cur.x], ret |-> 1]
+         THEN IF cur.m = cur.x THEN [mem |-> [m |-> CanonT(w, sg, v), x |-> cur.x], ret |-> 1]
               ELSE [mem |-> [m |-> cur.m, x |-> cur.m], ret |-> 0]
-         ELSE IF cur.m = Canon(w, e) THEN [mem |-> [m |-> cur.m, x |-> Canon(w, v)], ret |-> 1]
+         ELSE IF cur.m = CanonT(w, sg, e) THEN [mem |-> [m |-> cur.m, x |-> CanonT(w, sg, v)], ret |-> 1]
               ELSE [mem |-> cur, ret |-> 0]
-    [] opk = "xchg" -> [mem |-> Canon(w, v), ret |-> AsLong(w, sg, cur)]
-    [] opk = "cas"  -> IF cur = Canon(w, e)
-                       THEN [mem |-> Canon(w, v), ret |-> AsLong(w, sg, Canon(w, e)) * 2 + 1]
+    [] opk = "xchg" -> [mem |-> CanonT(w, sg, v), ret |-> AsLong(w, sg, cur)]    \* 7.17.7.3: VAL converted to the object's
+                                                                                \* type goes in, the value replaced comes out
+    [] opk = "cas"  -> IF cur = CanonT(w, sg, e)
+                       THEN [mem |-> CanonT(w, sg, v), ret |-> AsLong(w, sg, CanonT(w, sg, e)) * 2 + 1]
                        ELSE [mem |-> cur,         ret |-> AsLong(w, sg, cur) * 2]
     [] opk \in {"postinc", "postdec"} \cup FetchOld -> [mem |-> Arith(opk, w, sg, cur, v), ret |-> AsLong(w, sg, cur)]
     [] opk \in {"casinc", "lock"} ->
